@@ -70,7 +70,32 @@ def gen_case(rng, tier, idx):
                               "outcome": rng.choice(["boom", "valerr", "keyerr", "cpe"]), "enabled": True, "seeded": False,
                               "continue_on_error": True, "elem_outcomes": [rng.choice(["boom", "cpe", "value"]) for _ in range(4)]})
             g["junk"] = g["junk"] + [0] * (len(nodes) - len(g["junk"]))
-    return {"graph": g, "host": host, "store_skips": rng.random() < 0.4, "ext_seed": rng.getrandbits(32)}
+    if rng.random() < 0.35:
+        # a failing datasource that backs one spec directly and further specs through datasources built on it (a listing
+        # used by per-item specs): the set of specs its failure is recorded against must not depend on set iteration order
+        nodes = g["nodes"]
+        impls = [i for i, nd in enumerate(nodes) if nd["kind"] == "impl"]
+        if impls:
+            d = rng.choice(impls)
+            nodes[d]["outcome"] = rng.choice(["boom", "cpe", "valerr", "timeout"])
+            nodes[d]["enabled"] = True
+            for _ in range(rng.randint(1, 3)):
+                nodes.append({"kind": "impl", "implements": True, "part": nodes[d]["part"], "written": [d], "opt": [], "opt_single": False,
+                              "outcome": "value", "enabled": True, "seeded": False, "multi": False, "nelem": 2, "host": bool(host)})
+                nodes.append({"kind": "point", "part": nodes[d]["part"], "impls": [len(nodes) - 1], "written": [], "opt": [], "outcome": "value",
+                              "enabled": True, "seeded": False, "multi": False})
+            g["junk"] = g["junk"] + [0] * (len(nodes) - len(g["junk"]))
+    case = {"graph": g, "host": host, "store_skips": rng.random() < 0.4, "ext_seed": rng.getrandbits(32)}
+    if rng.random() < 0.25:
+        # the broker of a loaded archive: SerializedArchiveContext plus pre-loaded values (no pre-loaded component is a
+        # direct dependency of another one: that makes dr.run raise KeyError on the unchanged tree, outside the statement)
+        nodes = g["nodes"]
+        seeds = []
+        for i in rng.sample(range(len(nodes)), min(len(nodes), rng.randint(1, 4))):
+            if not any(i in G.all_deps(nodes[j]) or j in G.all_deps(nodes[i]) for j in seeds):
+                seeds.append(i)
+        case["serialized_seeds"] = sorted(seeds)
+    return case
 
 
 def nontrivial(spec):
@@ -114,13 +139,17 @@ def digest(brokers, b):
     return json.dumps({"inst": dict((str(k), v) for k, v in inst.items()), "exc": exc, "miss": miss}, sort_keys=True), problems
 
 
-def mk_broker(spec):
+def mk_broker(spec, b=None):
     from insights.core import dr
-    from insights.core.context import HostContext
+    from insights.core.context import HostContext, SerializedArchiveContext
     br = dr.Broker()
     br.store_skips = spec["store_skips"]
     if spec["host"]:
         br[HostContext] = HostContext()
+    if spec.get("serialized_seeds") and b is not None:
+        br[SerializedArchiveContext] = SerializedArchiveContext()
+        for i in spec["serialized_seeds"]:
+            br[b.comps[i]] = ("seed", i)
     return br
 
 
@@ -132,7 +161,7 @@ def single_pass(spec):
     try:
         graph = G.full_graph(b)
         with G.recording() as rec:
-            br = dr.run(dict(graph), broker=mk_broker(spec))
+            br = dr.run(dict(graph), broker=mk_broker(spec, b))
         d, _ = digest([br], b)
         order = [ev[3] for ev in rec.events if ev[2] == "order"]
         return d, [b.index.get(c, -1) for c in (order[0] if order else [])]
@@ -341,7 +370,10 @@ def run_case(spec, ctx):
     try:
         graph = G.full_graph(b)
         with G.recording() as rec:
-            br0 = dr.run(dict((k, set(v)) for k, v in graph.items()), broker=mk_broker(spec))
+            br0 = dr.run(dict((k, set(v)) for k, v in graph.items()), broker=mk_broker(spec, b))
+        serialized = bool(spec.get("serialized_seeds"))
+        if serialized:
+            ctx.count("graphs_with_a_loaded_archive_broker")
         d0, pr = digest([br0], b)
         base_bodies = body_counts(rec.events, len(b.comps))
         spec["_d0"] = d0
@@ -374,11 +406,13 @@ def run_case(spec, ctx):
 
         # (a) forced linear extensions
         nk = 6 if ctx.tier == "quick" else 10
+        if serialized:
+            nk = 0          # run_components is below the step of dr.run that leaves out what a loaded archive already holds
         for k in range(nk):
             order = G.random_extension(rng, graph)
             ctx.seen("_extensions", hash(tuple(b.index.get(c, -1) for c in order)) & 0xffffffffffff)
             with G.recording() as rec:
-                br = dr.run_components(order, graph, mk_broker(spec))
+                br = dr.run_components(order, graph, mk_broker(spec, b))
             compare("extension", [br], rec.events)
             ctx.count("extension_runs")
         # (e) partition
@@ -399,16 +433,38 @@ def run_case(spec, ctx):
                     ctx.violation("subgraphs-split-an-edge", {"component": b.index.get(c), "dependency": b.index.get(d)})
         ctx.count("partitions_checked")
         ctx.count("subgraphs", len(subs))
+        # (f) iteration order of the dependents sets (unspecified for a set: any order is one the interpreter may produce)
+        class Shuffled(set):
+            def __iter__(self_):
+                items = list(set.__iter__(self_))
+                rng.shuffle(items)
+                return iter(items)
+        orig_gd = dr.get_dependents
+        dr.get_dependents = lambda c: Shuffled(orig_gd(c))
+        try:
+            for k in range(3):
+                try:
+                    with G.recording() as rec:
+                        br = dr.run(dict((k_, set(v)) for k_, v in graph.items()), broker=mk_broker(spec, b))
+                    compare("set-order", [br], rec.events)
+                except Exception as ex:
+                    ctx.violation("driver-raised-under-set-order", {"exc": repr(ex)[:300]})
+                ctx.count("set_order_runs")
+        finally:
+            dr.get_dependents = orig_gd
         # (b) incremental
-        if not spec["host"] and not spec["store_skips"]:
+        if not spec["host"] and not spec["store_skips"] and not serialized:
             with G.recording() as rec:
                 brs = list(dr.run_incremental(dict(graph)))
             compare("incremental-fresh", brs, rec.events)
             ctx.count("incremental_runs")
-        with G.recording() as rec:
-            brk = mk_broker(spec)
-            list(dr.run_incremental(dict(graph), broker=brk))
-        compare("incremental-shared", [brk], rec.events)
+        try:
+            with G.recording() as rec:
+                brk = mk_broker(spec, b)
+                list(dr.run_incremental(dict(graph), broker=brk))
+            compare("incremental-shared", [brk], rec.events)
+        except Exception as ex:
+            ctx.violation("driver-raised-under-incremental", {"exc": repr(ex)[:300]})
         ctx.count("incremental_runs")
         # (c) thread pools with yield/sleep injection
         local = random.Random(spec["ext_seed"] ^ 0x5a5a)
@@ -441,16 +497,23 @@ def run_case(spec, ctx):
             setattr(dr.Broker, meth, mk(saved_iters[meth]))
         try:
             for w in POOLS:
-                variants = ["shared"] if (spec["host"] or spec["store_skips"]) else ["fresh", "shared"]
+                variants = ["shared"] if (spec["host"] or spec["store_skips"] or serialized) else ["fresh", "shared"]
                 for var in variants:
-                    with G.recording() as rec:
-                        with ThreadPoolExecutor(max_workers=w) as pool:
-                            if var == "fresh":
-                                res = dr.run_all(dict(graph), None, pool)
-                            else:
-                                brk = mk_broker(spec)
-                                dr.run_all(dict(graph), brk, pool)
-                                res = [brk]
+                    try:
+                        with G.recording() as rec:
+                            with ThreadPoolExecutor(max_workers=w) as pool:
+                                if var == "fresh":
+                                    res = dr.run_all(dict(graph), None, pool)
+                                else:
+                                    brk = mk_broker(spec, b)
+                                    dr.run_all(dict(graph), brk, pool)
+                                    res = [brk]
+                    except Exception as ex:
+                        # the single pass over the same graph and broker content did not raise
+                        mech = "shared-broker-iterated-while-worker-threads-fill-it" if "changed size during iteration" in repr(ex) else "driver-raised-under-pool"
+                        ctx.violation(mech, {"driver": "pool:%d:%s" % (w, var), "exc": repr(ex)[:300]})
+                        ctx.count("pool_runs")
+                        continue
                     compare("pool:%d:%s" % (w, var), res, rec.events)
                     tids = [ev[1] for ev in rec.events if ev[2] == "set"]
                     remap = {}
